@@ -225,9 +225,30 @@ class Walk:
                 out += self.block(s.orelse, self.copy(st))
             return out
         if isinstance(s, ast.Break):
+            if getattr(self, '_one_trip', 0):
+                return [(st, 'obreak')]
             return [(st, 'break')]
         if isinstance(s, ast.Continue):
+            if getattr(self, '_one_trip', 0):
+                raise Unsupported('continue inside a one-trip block')
             return [(st, 'fall')]
+        if isinstance(s, ast.While) and isinstance(
+                s.test, ast.Constant) and s.test.value is True and \
+                not s.orelse and s.body and isinstance(
+                    s.body[-1], (ast.Break, ast.Return, ast.Raise)):
+            # ``while True: ...; break`` is a block whose ``break`` is a
+            # jump to its end (an inlined helper with early returns)
+            self._one_trip = getattr(self, '_one_trip', 0) + 1
+            try:
+                res = self.block(s.body, st)
+            finally:
+                self._one_trip -= 1
+            out = []
+            for st2, kind in res:
+                if kind == 'fall':
+                    raise Unsupported('one-trip block can loop')
+                out.append((st2, 'fall' if kind == 'obreak' else kind))
+            return out
         if isinstance(s, ast.Return):
             return [(st, 'break')]
         if isinstance(s, ast.Raise):
